@@ -130,7 +130,7 @@ def generate():
     m2 = re.search(r"^\s*update_freq: (\w+),", cloud, re.M)
     out += "pub type UpdateFreq = %s;\npub fn update_freq_of(config: &XConfig) -> UpdateFreq {\n    let update_freq = config.get_keepalive() as %s;\n    update_freq\n}\n" % (m2.group(1) if m2 else "u16", cast)
     # housekeep: the announcement-interval slice
-    m = re.search(r"^( *)let min_peer_timeout = .*?self\.next_peers = now \+ [^;]*;", cloud, re.M | re.S)
+    m = re.search(r"^( *)let min_peer_timeout\s*=.*?self\.next_peers\s*=\s*now \+ [^;]*;", cloud, re.M | re.S)
     sl = need(m.group(0) if m else None, "announcement interval slice in GenericCloud::housekeep", "let interval = 0u16; self.next_peers = now;")
     # numeric fields of PeerData, with the types the source declares
     pd = extract_item(cloud, r"^(?:pub )?struct PeerData\s*")
@@ -144,7 +144,7 @@ def generate():
             "    pub update_freq: UpdateFreq,\n    pub next_peers: Time,\n}\nimpl XCloud {\n    pub fn announce_interval_slice(&mut self, now: Time) {\n"
             + sl + "\n    }\n}\n")
     # reconnect_to_peers: the back-off step
-    m = re.search(r"^( *)entry\.tries \+= 1;.*?entry\.next = now \+ [^;]*;", cloud, re.M | re.S)
+    m = re.search(r"^( *)entry\.tries \+= 1;.*?entry\.next\s*=\s*now \+ [^;]*;", cloud, re.M | re.S)
     sl = need(m.group(0) if m else None, "back-off slice in GenericCloud::reconnect_to_peers", "entry.next = now;")
     out += ("\npub struct XEntry {\n    pub tries: u16,\n    pub timeout: u16,\n    pub next: Time,\n}\n"
             "pub fn backoff_step_slice(entry: &mut XEntry, now: Time) {\n" + sl + "\n}\n")
